@@ -66,8 +66,12 @@ TimerFire == /\ pc["timer"] = "timer.armed" /\ done = "open"
 TimerStopped == /\ pc["timer"] = "timer.armed" /\ done = "closed"
                 /\ Goto("timer", "exit") /\ Ret("timer", "stopped") /\ Step("timer", "exit")
                 /\ UNCHANGED <<dmutex, slot, done, rollbacks, armed2, tries>>
-\* fired: acquire tmMutex, roll back only if T1 is still registered and unresolved
-TimerRollback == /\ pc["timer"] = "timer.fired"
+\* fired: Transaction.rollback() runs up to the yield point before the manager's mutex
+TimerProceed == /\ pc["timer"] = "timer.fired"
+                /\ Goto("timer", "timer.lock") /\ Step("timer", "timer.lock")
+                /\ UNCHANGED <<dmutex, slot, done, ret, rollbacks, armed2, tries>>
+\* acquire tmMutex, roll back only if T1 is still registered and unresolved
+TimerRollback == /\ pc["timer"] = "timer.lock"
                  /\ IF slot = "T1" /\ done = "open"
                     THEN /\ StopTimer /\ rollbacks' = rollbacks + 1 /\ slot' = None /\ Ret("timer", "rolledback")
                     ELSE /\ UNCHANGED <<done, rollbacks, slot>> /\ Ret("timer", "noop")
@@ -80,7 +84,7 @@ ConfirmTry == /\ "confirm" \in Ops /\ pc["confirm"] = "confirm.trylock"
                  ELSE dmutex' = dmutex /\ Goto("confirm", "exit") /\ Ret("confirm", "locked")
               /\ Step("confirm", "-")
               /\ UNCHANGED <<slot, done, rollbacks, armed2, tries>>
-ConfirmBody == /\ pc["confirm"] = "confirm.lock"
+ConfirmBody == /\ "confirm" \in Ops /\ pc["confirm"] = "confirm.lock"
                /\ IF slot # None /\ slot = ConfirmId
                   THEN /\ (IF slot = "T1" THEN StopTimer ELSE done' = done)
                        /\ armed2' = (IF slot = "T2" THEN FALSE ELSE armed2)
@@ -95,7 +99,7 @@ CancelTry == /\ "cancel" \in Ops /\ pc["cancel"] = "cancel.trylock"
                 ELSE dmutex' = dmutex /\ Goto("cancel", "exit") /\ Ret("cancel", "locked")
              /\ Step("cancel", "-")
              /\ UNCHANGED <<slot, done, rollbacks, armed2, tries>>
-CancelBody == /\ pc["cancel"] = "cancel.lock"
+CancelBody == /\ "cancel" \in Ops /\ pc["cancel"] = "cancel.lock"
               /\ IF slot # None /\ slot = CancelId
                  THEN /\ (IF slot = "T1" THEN StopTimer /\ rollbacks' = rollbacks + 1
                                          ELSE done' = done /\ rollbacks' = rollbacks)
@@ -113,7 +117,7 @@ SetTry == /\ "set2" \in Ops /\ pc["set2"] = "set.trylock"
           /\ UNCHANGED <<slot, done, rollbacks, armed2, tries>>
 \* one registration attempt (holding dmutex): success runs the whole pipeline and arms T2's timer;
 \* failure releases dmutex for the time it sleeps and parks at "set.relock"
-SetRegister == /\ pc["set2"] = "set.register" /\ dmutex = "set2"
+SetRegister == /\ "set2" \in Ops /\ pc["set2"] = "set.register" /\ dmutex = "set2"
                /\ IF slot = None
                   THEN /\ slot' = "T2" /\ armed2' = TRUE /\ dmutex' = None
                        /\ Goto("set2", "exit") /\ Ret("set2", "ok") /\ tries' = tries
@@ -125,11 +129,11 @@ SetRegister == /\ pc["set2"] = "set.register" /\ dmutex = "set2"
                /\ Step("set2", "-")
                /\ UNCHANGED <<done, rollbacks>>
 \* after the sleep: take dmutex again (blocking Lock: enabled only when free)
-SetRelock == /\ pc["set2"] = "set.relock" /\ dmutex = None
+SetRelock == /\ "set2" \in Ops /\ pc["set2"] = "set.relock" /\ dmutex = None
              /\ dmutex' = "set2" /\ Goto("set2", "set.register") /\ Step("set2", "-")
              /\ UNCHANGED <<slot, done, ret, rollbacks, armed2, tries>>
 
-Next == TimerFire \/ TimerStopped \/ TimerRollback
+Next == TimerFire \/ TimerStopped \/ TimerProceed \/ TimerRollback
         \/ ConfirmTry \/ ConfirmBody \/ CancelTry \/ CancelBody
         \/ SetTry \/ SetRegister \/ SetRelock
 Spec == Init /\ [][Next]_vars /\ WF_vars(Next)
@@ -149,7 +153,7 @@ NewerSurvives  == ("set2" \in Ops /\ ret["set2"] = "ok") =>
 WrongIdNoEffect == /\ ("confirm" \in Ops /\ ConfirmId = "X") => ret["confirm"] \in {"-", "err", "locked"}
                    /\ ("cancel" \in Ops /\ CancelId = "X") => ret["cancel"] \in {"-", "err", "locked"}
 \* Confirm/Cancel are never refused while Set(T2) merely waits: it holds dmutex only around one attempt
-NotRefusedByWaiter == (dmutex = "set2") => pc["set2"] = "set.register"
+NotRefusedByWaiter == (dmutex = "set2") => ("set2" \in Ops /\ pc["set2"] = "set.register")
 \* at most one transaction registered and T2 only armed while registered
 SlotSane == armed2 => slot = "T2"
 Terminates == <>AllDone
